@@ -516,6 +516,11 @@ class Ctx:
                 "describe": st.describe, "wall_s": round(time.time() - t0, 2),
                 "samples": [{"case": c, "impl": i, "model": m} for c, i, m in
                             [(cases[k], impl[k], model[k]) for k in _sample_idx(len(cases), 3, self.rng)]]}
+        if getattr(st, "stats", None):
+            try:
+                info["input_distribution"] = st.stats(cases, impl, model)
+            except Exception as e:  # noqa: BLE001  (statistics must never break a check)
+                info["input_distribution"] = {"error": str(e)[:200]}
         self.cov.setdefault("streams", []).append(info)
         # monitor on the implementation trace of EVERY case (cheap ones are Python predicates)
         bad = []
